@@ -145,6 +145,8 @@ type fakeBackend struct {
 	// perHeight, when set, makes GetTransactions / GetBlockResults answer for the height that
 	// is asked (an honest provider with the whole chain), instead of the fixed txs / res.
 	perHeight func(h int64) ([][]byte, *consensusAPI.BlockResults)
+	// blkAt, when set, makes GetBlock answer for the height that is asked (safe for concurrent callers).
+	blkAt func(h int64) *consensusAPI.Block
 
 	// watchCh feeds Core.Serve (WatchBlocks of the provider).
 	watchCh chan *consensusAPI.Block
@@ -176,7 +178,13 @@ func (b *fakeBackend) GetLatestHeight(context.Context) (int64, error) {
 	return b.latest, nil
 }
 
-func (b *fakeBackend) GetBlock(context.Context, int64) (*consensusAPI.Block, error) {
+func (b *fakeBackend) GetBlock(_ context.Context, h int64) (*consensusAPI.Block, error) {
+	if f := b.blkAt; f != nil {
+		if blk := f(h); blk != nil {
+			return blk, nil
+		}
+		return nil, errNoResponse
+	}
 	b.calls["GetBlock"]++
 	if b.blk == nil {
 		return nil, errNoResponse
